@@ -2,8 +2,8 @@
 # rebuild unit3.rs from unit0.rs + spec.py
 python3 - <<'PY'
 import re, sys, importlib.util
-sp = importlib.util.spec_from_file_location('spec','/tmp/probe/alloc/spec3.py'); spec=importlib.util.module_from_spec(sp); sp.loader.exec_module(spec)
-s=open('/tmp/probe/alloc/unit0.rs').read()
+sp = importlib.util.spec_from_file_location('spec','/verif/design-probes/verus-alloc/spec3.py'); spec=importlib.util.module_from_spec(sp); sp.loader.exec_module(spec)
+s=open('/verif/design-probes/verus-alloc/unit0.rs').read()
 ALIAS = {'RegTape::new': r'fn new<const N: usize>\(ssa', 'SsaTape::len': r'fn len\(&self\) -> usize'}
 def find_fn(s, name):
     pat = ALIAS.get(name, r'fn %s\b' % re.escape(name))
@@ -90,5 +90,5 @@ for name,(ret,text) in spec.SPECS.items():
         sig = re.sub(r'->\s*([^{]+?)\s*$', lambda m: '-> (%s)' % ret, sig.rstrip())
     s = s[:i] + sig + text + '    ' + s[j:]
 s = s.replace('\n} // verus!', spec.PRELUDE + '\n} // verus!')
-open('/tmp/probe/alloc/unit3.rs','w').write(s)
+open('/verif/design-probes/verus-alloc/unit3.rs','w').write(s)
 PY
